@@ -9,10 +9,16 @@ from .. import core, build, parsecmp as pc
 PID = 'C19'
 
 FILES = {
+    # parameter entities are declared in one entity and referenced from another one in a different directory: the
+    # system identifier must be resolved against the entity that contains the DECLARATION
     'dtd/ext.dtd': b'<!ELEMENT r ANY><!ELEMENT g ANY><!ELEMENT h ANY><!ATTLIST r xmlns:xsi CDATA #IMPLIED xsi:noNamespaceSchemaLocation CDATA #IMPLIED>'
-                   b'<!ENTITY ge SYSTEM "sub/ge.xml"><!ENTITY % pe SYSTEM "pe/pe.ent">%pe;',
+                   b'<!ENTITY ge SYSTEM "sub/ge.xml"><!ENTITY % pe SYSTEM "pe/pe.ent">%pe;'
+                   b'<!ENTITY % late SYSTEM "late/late.ent"><!ENTITY % lvl2 SYSTEM "lvl/l2.ent">%lvl2;%mod;',
     'dtd/sub/ge.xml': b'<g>ge</g>',
     'dtd/pe/pe.ent': b'<!ENTITY fromPe "pe">',
+    'dtd/lvl/l2.ent': b'<!ENTITY fromL2 "l2">%late;',
+    'dtd/late/late.ent': b'<!ENTITY fromLate "late">',
+    'mods/m.ent': b'<!ENTITY fromMod "mod">',
     'ent/gi.xml': b'<?xml version="1.0" encoding="UTF-8"?><g>gi</g>',
     'xsd/s.xsd': b'<xs:schema xmlns:xs="http://www.w3.org/2001/XMLSchema" xmlns:i="urn:i"><xs:include schemaLocation="inc/inc.xsd"/>'
                  b'<xs:import namespace="urn:i" schemaLocation="../imp/i.xsd"/><xs:element name="r" type="T"/></xs:schema>',
@@ -20,10 +26,10 @@ FILES = {
                        b'<xs:any minOccurs="0" maxOccurs="unbounded" processContents="skip"/></xs:sequence><xs:anyAttribute processContents="skip"/></xs:complexType></xs:schema>',
     'imp/i.xsd': b'<xs:schema xmlns:xs="http://www.w3.org/2001/XMLSchema" targetNamespace="urn:i"><xs:element name="x" type="xs:string"/></xs:schema>',
 }
-DOC = (b'<?xml version="1.0"?>\n<!DOCTYPE r SYSTEM "dtd/ext.dtd" [\n<!ENTITY gi SYSTEM "ent/gi.xml">\n]>\n'
+DOC = (b'<?xml version="1.0"?>\n<!DOCTYPE r SYSTEM "dtd/ext.dtd" [\n<!ENTITY gi SYSTEM "ent/gi.xml">\n<!ENTITY % mod SYSTEM "mods/m.ent">\n]>\n'
        b'<r xmlns:xsi="http://www.w3.org/2001/XMLSchema-instance" xsi:noNamespaceSchemaLocation="xsd/s.xsd">&gi;&ge;</r>\n')
 DOC_NODTD = b'<r xmlns:xsi="http://www.w3.org/2001/XMLSchema-instance" xsi:noNamespaceSchemaLocation="xsd/s.xsd">t</r>\n'
-DTDSET = {'dtd/ext.dtd', 'dtd/pe/pe.ent', 'dtd/sub/ge.xml'}
+DTDSET = {'dtd/ext.dtd', 'dtd/pe/pe.ent', 'dtd/sub/ge.xml', 'dtd/lvl/l2.ent', 'dtd/late/late.ent', 'mods/m.ent'}
 XSDSET = {'xsd/s.xsd', 'xsd/inc/inc.xsd', 'imp/i.xsd'}
 ALL = set(FILES)
 
